@@ -301,6 +301,96 @@ pub async fn scenario_c07() {
 	if nontrivial {
 		rt::probe("nontrivial");
 	}
+	// (last in the scenario: tapes recorded before this sub-scenario existed keep their meaning)
+	// a single frame whose header announces far more than any limit (2^28 + 1 bytes; only the header and the first
+	// kilobyte are ever sent): the message is to be refused when it has arrived - the server must not hang up on the
+	// header, it has no business closing a connection over the size of a message
+	if rt::chance("huge_frame_header", 1, 8) {
+		use futures_util::io::{AsyncReadExt, AsyncWriteExt};
+		use tokio_util::compat::TokioAsyncReadCompatExt;
+		rt::probe("huge_frame_header");
+		let mut world = World::new(SrvCfg { entry, max_req: req_limit, max_resp: resp_a, ..Default::default() });
+		world.start().await;
+		let (end, _ctl) = world.connect("whuge");
+		let mut io = end.compat();
+		let req = "GET / HTTP/1.1\r\nhost: sim.invalid\r\nupgrade: websocket\r\nconnection: upgrade\r\nsec-websocket-key: dGhlIHNhbXBsZSBub25jZQ==\r\nsec-websocket-version: 13\r\n\r\n";
+		let _ = io.write_all(req.as_bytes()).await;
+		let _ = io.flush().await;
+		// the 101 response
+		let mut head = Vec::new();
+		let mut byte = [0u8; 1];
+		let upgraded = loop {
+			match tokio::time::timeout(Duration::from_secs(2), io.read(&mut byte)).await {
+				Ok(Ok(1)) => {
+					head.push(byte[0]);
+					if head.ends_with(b"\r\n\r\n") {
+						break head.starts_with(b"HTTP/1.1 101");
+					}
+					if head.len() > 4096 {
+						break false;
+					}
+				}
+				_ => break false,
+			}
+		};
+		if upgraded {
+			// (client frames are masked; an all-zero key leaves the payload as it is)
+			let frame = |payload: &[u8], announced: u64| -> Vec<u8> {
+				let mut f = vec![0x81u8];
+				if announced < 126 {
+					f.push(0x80 | announced as u8);
+				} else if announced < 65536 {
+					f.push(0x80 | 126);
+					f.extend_from_slice(&(announced as u16).to_be_bytes());
+				} else {
+					f.push(0x80 | 127);
+					f.extend_from_slice(&announced.to_be_bytes());
+				}
+				f.extend_from_slice(&[0, 0, 0, 0]);
+				f.extend_from_slice(payload);
+				f
+			};
+			let call = len_call(1, 60);
+			let _ = io.write_all(&frame(&call, call.len() as u64)).await;
+			let announced = (1u64 << 28) + 1 + rt::draw("beyond", 3) as u64 * 1000;
+			let _ = io.write_all(&frame(&vec![b' '; 1024], announced)).await;
+			let _ = io.flush().await;
+			// what the server sends within a second of virtual time
+			let mut got = Vec::new();
+			let mut buf = [0u8; 512];
+			let mut eof = false;
+			while let Ok(r) = tokio::time::timeout(Duration::from_secs(1), io.read(&mut buf)).await {
+				match r {
+					Ok(0) | Err(_) => {
+						eof = true;
+						break;
+					}
+					Ok(n) => got.extend_from_slice(&buf[..n]),
+				}
+			}
+			// server frames are not masked: 0x81 len payload | 0x88 close
+			let mut answered_first = false;
+			let mut closed = eof;
+			let mut i = 0;
+			while i + 2 <= got.len() {
+				let (op, l7) = (got[i] & 0x0f, (got[i + 1] & 0x7f) as usize);
+				let (len, hdr) = if l7 == 126 && i + 4 <= got.len() { (u16::from_be_bytes([got[i + 2], got[i + 3]]) as usize, 4) } else { (l7, 2) };
+				if op == 0x8 {
+					closed = true;
+				}
+				if op == 0x1 && i + hdr + len <= got.len() && matches!(parse_response(&got[i + hdr..i + hdr + len]), Ok((id, Ok(_))) if id == json!(1)) {
+					answered_first = true;
+				}
+				i += hdr + len;
+			}
+			rt::event("huge-frame", format!("announced={announced} answered_first={answered_first} closed={closed} bytes={}", got.len()));
+			if closed {
+				rt::violate(P, "connection-not-serving", format!("ws:huge-frame-header:{entry:?}"), format!("a frame whose header announces {announced} bytes (max_request_body_size {req_limit}) made the server close the connection on the spot (first call answered: {answered_first}) instead of refusing the message when it has arrived"));
+			}
+		}
+		drop(io);
+		world.drop_stop_handle();
+	}
 }
 
 // ------------------------------------------------------------------------------------------------
